@@ -425,6 +425,8 @@ func sampleFromRe(t *rapid.T, r *ref.Re) string {
 		return sampleFromRe(t, r.Subs[rapid.IntRange(0, len(r.Subs)-1).Draw(t, "ai")])
 	case "group":
 		return sampleFromRe(t, r.Subs[0])
+	case "fold", "foldall":
+		return gen.FlipCase(t, sampleFromRe(t, r.Subs[0]))
 	case "opt":
 		if rapid.Bool().Draw(t, "opt") {
 			return sampleFromRe(t, r.Subs[0])
